@@ -925,6 +925,12 @@ class SymC(object):
     def cosh(self):
         return SymC(self.re.cosh() * self.im.cos(), self.re.sinh() * self.im.sin())
 
+    def tan(self):
+        return self.sin() / self.cos()
+
+    def tanh(self):
+        return self.sinh() / self.cosh()
+
     def square(self):
         return self * self
 
